@@ -517,8 +517,12 @@ func runC05(c *Ctx) {
 				if s2, ok := in2.(*ssa.Store); ok {
 					if fa, ok := s2.Addr.(*ssa.FieldAddr); ok {
 						if _, f := fieldVarOf(fa); sameField(f, m.dataF) {
-							if sl, ok := s2.Val.(*ssa.Slice); ok && sl.High != nil && dominatesInstr(s, s2) {
-								trunc = sl.High
+							if sl, ok := s2.Val.(*ssa.Slice); ok && sl.High != nil {
+								// a truncation that follows the overwrite on some path (it need not be dominated by it:
+								// the overwrite may sit in a branch before a shared truncation)
+								if after, _ := reachesWithout(P, s, false, func(in3 ssa.Instruction) bool { return in3 == ssa.Instruction(s2) }, func(ssa.Instruction) bool { return false }); after || dominatesInstr(s, s2) {
+									trunc = sl.High
+								}
 							}
 						}
 					}
@@ -857,7 +861,34 @@ func runC05(c *Ctx) {
 				c.ok("R-POP-CONSERVES", key, cut.Pos(), "the slot cut off is the removed one, or the only one")
 				continue
 			}
-			missing, wit := reachesWithout(P, firstInstr(fn), true, func(in ssa.Instruction) bool { return in == ssa.Instruction(cut) }, slotWrite)
+			// paths on which a branch edge says the heap had a single element (the cut length is ≤ 0) or
+			// that slot i is the tail need no write
+			exemptEdge := func(iff *ssa.If, idx int) bool {
+				cm, ok := edgeCmp(iff, idx)
+				if !ok {
+					return false
+				}
+				if (cm.X == hi && isConstInt(cm.Y, 0) && (cm.Op == token.EQL || cm.Op == token.LEQ)) || (cm.Y == hi && isConstInt(cm.X, 0) && (cm.Op == token.EQL || cm.Op == token.GEQ)) {
+					return true
+				}
+				if (cm.X == hi && isConstInt(cm.Y, 1) && cm.Op == token.LSS) || (cm.Y == hi && isConstInt(cm.X, 1) && cm.Op == token.GTR) {
+					return true
+				}
+				if cm.X == ssa.Value(ip) && cm.Y == hi && (cm.Op == token.EQL || cm.Op == token.GEQ) {
+					return true
+				}
+				if cm.Y == ssa.Value(ip) && cm.X == hi && (cm.Op == token.EQL || cm.Op == token.LEQ) {
+					return true
+				}
+				return false
+			}
+			w := walkFromE(firstInstr(fn), true, slotWrite, exemptEdge)
+			missing, wit := false, ""
+			for _, in2 := range w.order {
+				if in2 == ssa.Instruction(cut) {
+					missing, wit = true, w.witness(P, in2)
+				}
+			}
 			c.judge(!missing, "R-POP-CONSERVES", key, cut.Pos(), "slot i receives the tail element before the tail slot is cut off", "the last slot is cut off on a path where slot i was never overwritten ("+wit+"): the element that was in the last slot is lost and the removed element stays in the heap")
 		}
 	}
@@ -894,8 +925,33 @@ func runC05(c *Ctx) {
 			case *ssa.Slice:
 				return v.Low == nil && v.High != nil && isLenVs(v.High)
 			case *ssa.Call:
-				// slices.Clone(vs) / append([]T(nil), vs...)
-				if ap, ok := isBuiltinCall(v, "append"); ok && isNilConst(ap.Call.Args[0]) && len(ap.Call.Args) == 2 && ap.Call.Args[1] == ssa.Value(vs) {
+				// slices.Clone(vs) / append([]T(nil), vs...) / append(buf[:0], vs...) with an empty base
+				var lenZero func(b ssa.Value, d int) bool
+				lenZero = func(b ssa.Value, d int) bool {
+					if d > 4 {
+						return false
+					}
+					switch y := b.(type) {
+					case *ssa.Const:
+						return y.IsNil()
+					case *ssa.Slice:
+						// an emptied view of the queue's own buffer — not of the caller's slice (that would adopt it)
+						return y.Low == nil && y.High != nil && isConstInt(y.High, 0) && isLoadOfField(y.X, m.dataF)
+					case *ssa.MakeSlice:
+						return isConstInt(y.Len, 0)
+					case *ssa.Phi:
+						for _, e := range y.Edges {
+							if !lenZero(e, d+1) {
+								return false
+							}
+						}
+						return len(y.Edges) > 0
+					case *ssa.ChangeType:
+						return lenZero(y.X, d+1)
+					}
+					return false
+				}
+				if ap, ok := isBuiltinCall(v, "append"); ok && len(ap.Call.Args) == 2 && ap.Call.Args[1] == ssa.Value(vs) && lenZero(ap.Call.Args[0], 0) {
 					return true
 				}
 			}
@@ -1209,7 +1265,27 @@ func runC06(c *Ctx) {
 								if !ok || !isLoadOfField(ln.Call.Args[0], m.dataF) || !dominatesInstr(ln, ap) {
 									return false
 								}
-								return isNotify(in2, call.Call.Args[1])
+								if isNotify(in2, call.Call.Args[1]) {
+									return true
+								}
+								// … or the very value that was appended (no store to the buffer lies between the
+								// append and the report: checked by requiring the report in the same block)
+								if len(ap.Call.Args) == 2 && call.Block() == x.Block() {
+									if sl, ok := ap.Call.Args[1].(*ssa.Slice); ok {
+										if arr, ok := sl.X.(*ssa.Alloc); ok {
+											for _, r := range referrersOf(arr) {
+												if ia, ok := r.(*ssa.IndexAddr); ok {
+													for _, r2 := range referrersOf(ia) {
+														if st2, ok := r2.(*ssa.Store); ok && st2.Addr == ssa.Value(ia) && st2.Val == call.Call.Args[0] {
+															return true
+														}
+													}
+												}
+											}
+										}
+									}
+								}
+								return false
 							})
 							c.judge(ok1, "R-MOVE-NOTIFY", key, x.Pos(), "appended slot len(old) reported on all paths", "appended element's position is not reported ("+wit+")")
 						}
@@ -1265,6 +1341,28 @@ func rulePosWriters(c *Ctx) {
 	for _, f := range buildCallScope(lruFn).fns {
 		ctor[origin(f)] = true
 	}
+	// the update callback: the function literal handed to Update in the constructor, or a method handed to it
+	// as a method value (lru.moved) — then its element and position are parameters 1 and 2
+	var cbMethod *ssa.Function
+	for cf := range ctor {
+		allInstrs(cf, func(in ssa.Instruction) {
+			call, ok := in.(*ssa.Call)
+			if !ok || staticCallee(&call.Call) != qUpdate || len(call.Call.Args) < 2 {
+				return
+			}
+			if mc, ok := call.Call.Args[1].(*ssa.MakeClosure); ok {
+				if w, ok := mc.Fn.(*ssa.Function); ok && w.Parent() == nil && strings.HasSuffix(w.Name(), "$bound") {
+					allInstrs(w, func(in2 ssa.Instruction) {
+						if ci, ok := in2.(ssa.CallInstruction); ok {
+							if t := origin(staticCallee(ci.Common())); t != nil {
+								cbMethod = t
+							}
+						}
+					})
+				}
+			}
+		})
+	}
 	for _, fn := range P.PkgFuncs("cache") {
 		if P.isCanaryFn(fn) {
 			continue
@@ -1277,6 +1375,26 @@ func rulePosWriters(c *Ctx) {
 					return
 				}
 				nUpd++
+				if cbMethod != nil && origin(fn) == cbMethod && len(fn.Params) == 3 {
+					kOK := false
+					if fld, ok := x.Key.(*ssa.Field); ok && fld.X == fn.Params[1] {
+						kOK = true
+					}
+					if _, f := loadedField(x.Key); f != nil {
+						if fa, ok := x.Key.(*ssa.UnOp).X.(*ssa.FieldAddr); ok {
+							if al, ok := fa.X.(*ssa.Alloc); ok {
+								for _, r := range referrersOf(al) {
+									if st, ok := r.(*ssa.Store); ok && st.Addr == al && st.Val == fn.Params[1] {
+										kOK = true
+									}
+								}
+							}
+						}
+					}
+					c.sawFn(name)
+					c.judge(kOK && x.Value == fn.Params[2], "R-POS-WRITERS", name+":present[k]=v", x.Pos(), "callback (a method value) records its own (element key, position) arguments", "update callback does not record the reported position under the reported element's key")
+					return
+				}
 				key := name + ":present[k]=v"
 				c.sawFn(name)
 				// (a) inside the closure passed to Update: key = param.key, value = param pos
